@@ -19,11 +19,18 @@
                                depth, so the theorem is an inequational simulation in both directions
                                (`block_wrap_le`, `block_wrap_ge`) and, from them, equality of finished outcomes
                                (`block_wrap_sound`).
-  NOT proved (exercised by the correspondence only): iife_wrap, const_inline,
-  expr_stmt_vs_value_position, toString re-evaluation.
+      expr_stmt_vs_value_position   in every FUNCTION body, `e;` becomes `void e;` (the statement's value is dropped;
+                               the script body, whose completion value is observable, is left alone).  Inside a
+                               function body completion values are unobservable but threaded through lists, loops,
+                               switch and try, so the simulation relation is "equal up to the values of
+                               normal/break/continue completions" (`Res.qle`), collapsing to equality at the call
+                               boundary; both directions (`expr_stmt_void_le`, `expr_stmt_void_ge`) and equality of
+                               finished script outcomes (`expr_stmt_vs_value_position_sound`).
+  NOT proved (exercised by the correspondence only): iife_wrap, const_inline, toString re-evaluation.
 -/
 import GojaModel.C02.Instances
 import GojaModel.C02.Wrap
+import GojaModel.C02.Erase
 
 namespace GojaModel.C02
 
@@ -121,6 +128,36 @@ theorem block_wrap_sound (P : Prog) (r : Res) (hfin : r ≠ .timeout) :
     · rw [h] at h1; exact absurd h1 hfin
     · exact ⟨2 * n, by rw [← h1, h]⟩
 
+/-! ### expr_stmt_vs_value_position (value of an expression statement dropped inside function bodies) -/
+
+/-- Every task (script statements, expressions, calls, loops) of the rewritten program finishes, with the same
+fuel, only with what the original finishes with. -/
+theorem expr_stmt_void_le (P : Prog) (n : Nat) (t : Task) (env : Env) (st : St) :
+    Res.le (eval (exprStmtVoid P) n t env st) (eval P n t env st) :=
+  (void_inv1 P n).A t env st
+
+theorem expr_stmt_void_ge (P : Prog) (n : Nat) (t : Task) (env : Env) (st : St) :
+    Res.le (eval P n t env st) (eval (exprStmtVoid P) (2 * n) t env st) :=
+  (void_inv2 P n).A t env st
+
+/-- Inside function bodies the rewritten statements agree with the originals up to erased completion values. -/
+theorem expr_stmt_void_body (P : Prog) (n : Nat) (s : Stmt) (l : List Name) (env : Env) (st : St) :
+    Res.qle (eval (exprStmtVoid P) n (.stmt (vS s) l) env st) (eval P n (.stmt s l) env st) :=
+  (void_inv1 P n).S s l env st
+
+/-- A script and its `void`-rewritten version have the same finished outcomes (completion value included). -/
+theorem expr_stmt_vs_value_position_sound (P : Prog) (r : Res) (hfin : r ≠ .timeout) :
+    (∃ n, run (exprStmtVoid P) n = r) ↔ (∃ n, run P n = r) := by
+  constructor
+  · rintro ⟨n, h⟩
+    rcases run_void_le P n with h1 | h1
+    · rw [h] at h1; exact absurd h1 hfin
+    · exact ⟨n, by rw [← h1, h]⟩
+  · rintro ⟨n, h⟩
+    rcases run_le_void P n with h1 | h1
+    · rw [h] at h1; exact absurd h1 hfin
+    · exact ⟨2 * n, by rw [← h1, h]⟩
+
 /-! ### non-vacuity (tests on literals: the rewrites do change concrete programs) -/
 
 /-- `log(1); if (false) { eval("") } throw 2; log(3)` inside a function that is called. -/
@@ -140,5 +177,7 @@ example : progSize (noopClosureCapture demo) = 8 := by decide
 example : (run demo 10).show = "T 2 | 1" := by decide
 example : progSize (blockWrap demo) = 18 := by decide
 example : (run (blockWrap demo) 10).show = "T 2 | 1" := by decide
+example : (run (exprStmtVoid demo) 10).show = "T 2 | 1" := by decide
+example : progSize (exprStmtVoid demo) = progSize demo ∧ (exprStmtVoid demo).funs.map (fun fd => fd.body.length) = [5] := by decide
 
 end GojaModel.C02
